@@ -211,8 +211,12 @@ InvDensRange(m, o, pr, s) == RCeil(RDiv(WMax(m, o, pr), Pj(m, s)))
 ---------------------------------------------------------------------------
 \* ChangeTarget: particle c of target (m, o) becomes Overlay(c, o2) for (m2, o2) (same
 \* unconstrained sites), log-weight changes by the log ratio of the target densities.
-ChangeOK(m, o, m2, o2) == /\ NS(m) = NS(m2) /\ ObsIdx(o) = ObsIdx(o2)
+ChangeOK(m, o, m2, o2) == /\ NS(m) = NS(m2) /\ ObsIdx(o) \subseteq ObsIdx(o2)
                           /\ \A i \in 1..NS(m) : Card(m, i) = Card(m2, i)
+\* "one more observation arrives": the new target observes sites that were latent (sampled, possibly
+\* proposed) under the old one.  The new particle takes the new target's value there (the target's own
+\* constraint wins over the particle's stale value); the weight still changes by the density ratio.
+Dropped(o, o2) == ObsIdx(o2) \ ObsIdx(o)
 LWChanged(m, o, pr, m2, o2, c) == LW(m, o, pr, c) + JointLP(m2, Overlay(c, o2)) - JointLP(m, c)
 
 ---------------------------------------------------------------------------
@@ -278,6 +282,13 @@ Next ==
           /\ \E p \in 0..NP :
                /\ ValidScenario(Models[sc.m], sc.o, PropAt(p))
                /\ sc' = Sc("change", sc.m, sc.o, p, 1, m2, o2, {}, "none")
+  \/ /\ sc.kind = "node2" /\ sc.mh = "change"            \* the observed set grows by one site
+     /\ \E i \in {j \in 1..NS(Models[sc.m]) : sc.o[j] = Minus1} : \E v \in 0..(Card(Models[sc.m], i) - 1) :
+          LET o2 == [sc.o EXCEPT ![i] = v] IN
+          /\ o2 \in ObsSeqs(Models[sc.m])
+          /\ \E p \in 0..NP :
+               /\ ValidScenario(Models[sc.m], sc.o, PropAt(p))
+               /\ sc' = Sc("change", sc.m, sc.o, p, 1, sc.m, o2, {}, "none")
   \/ /\ sc.kind = "node" /\ sc.mh = "marg"
      /\ \E S \in SUBSET (1..NS(Models[sc.m])) : sc' = Sc("marg", sc.m, <<>>, 0, 0, 0, <<>>, S, "none")
   \/ /\ sc.kind = "node" /\ sc.mh = "mh"
@@ -354,12 +365,28 @@ PAlgApproachesPosterior ==
      IN  t2[1] * t1[2] <= t1[1] * t2[2]
 
 \* ChangeTarget yields properly weighted particles for the new target
+ChangeMass(m, o, pr, m2, o2) ==
+  RSum(Latents(m, o), LAMBDA c :
+      RMul(Pow2(QLP(m, o, pr, c)), Pow2(LWChanged(m, o, pr, m2, o2, c))))
 ChangeProper ==
+  (sc.kind = "change" /\ Dropped(sc.o, sc.o2) = {}) =>
+    ChangeMass(Models[sc.m], sc.o, PropAt(sc.p), Models[sc.m2], sc.o2) = ZOf(Models[sc.m2], sc.o2)
+\* when the observed set grows, every new particle is reached from Card(site) old particles (one per
+\* discarded value) and the density-ratio weight has no backward term for the discarded value:
+\* E[2^lw'] = (product of the cardinalities of the newly observed sites) * Z_new  -- the ratio the
+\* statement names, NOT a properly weighted collection (recorded in notes/inference.md)
+ChangeGrowMass ==
+  (sc.kind = "change" /\ Dropped(sc.o, sc.o2) # {}) =>
+    LET m == Models[sc.m]
+        n == MapThenFoldSet(LAMBDA a, b : a * b, 1, LAMBDA i : Card(m, i), LAMBDA S : CHOOSE x \in S : TRUE,
+                            Dropped(sc.o, sc.o2))
+    IN  ChangeMass(m, sc.o, PropAt(sc.p), Models[sc.m2], sc.o2) = RMul(<<n, 1>>, ZOf(Models[sc.m2], sc.o2))
+\* the changed particle always satisfies the new constraint and keeps the other latents
+ChangeParticle ==
   sc.kind = "change" =>
-    LET m == Models[sc.m]  m2 == Models[sc.m2]  pr == PropAt(sc.p) IN
-    RSum(Latents(m, sc.o), LAMBDA c :
-        RMul(Pow2(QLP(m, sc.o, pr, c)), Pow2(LWChanged(m, sc.o, pr, m2, sc.o2, c))))
-      = ZOf(m2, sc.o2)
+    \A c \in Latents(Models[sc.m], sc.o) :
+       /\ Agrees(Overlay(c, sc.o2), sc.o2)
+       /\ \A i \in 1..Len(c) : sc.o2[i] = Minus1 => Overlay(c, sc.o2)[i] = c[i]
 
 \* Marginal: the selected-score weight is an unbiased density sampler weight, and it is the exact
 \* marginal density whenever the unselected part does not influence the selected part
@@ -430,6 +457,6 @@ EmitCase ==
       [] sc.kind = "change" ->
            PrintT(<<"CASE", ToJson([kind |-> "change", model |-> Models[sc.m].name, o |-> sc.o,
                                     prop |-> PropAt(sc.p).name, model2 |-> Models[sc.m2].name,
-                                    o2 |-> sc.o2])>>)
+                                    o2 |-> sc.o2, grow |-> (Dropped(sc.o, sc.o2) # {})])>>)
       [] OTHER -> TRUE
 =============================================================================
